@@ -615,7 +615,10 @@ def check_sens(live, op, step, out, stats, log, prefix):
     elif not np.all(np.isfinite(got_f)):
         msg = "non-finite values %s" % (got_f.tolist(),)
     else:
-        tol_f = 1e-9 * np.maximum(np.abs(got_f), np.abs(want_f)) + 1e-11 * np.maximum(min(sig, 1.0), np.abs(want_f0)) + 1e-300
+        # ... plus the absolute rounding floor of double arithmetic on the O(1) quantities that enter the same
+        # products and sums (1e-13 x the largest S-independent entry)
+        tol_f = 1e-9 * np.maximum(np.abs(got_f), np.abs(want_f)) + 1e-11 * np.maximum(min(sig, 1.0), np.abs(want_f0)) \
+            + 1e-13 * (1.0 + float(np.abs(want_f0).max()) + float(np.abs(z[:n_]).max()))
         err_f = np.abs(got_f - want_f)
         if np.any(err_f > tol_f):
             k = int(np.argmax(err_f - tol_f))
